@@ -14,7 +14,7 @@ import (
 func (e *Exec) tryInline(call *ast.CallExpr, st *State, ctx *Ctx, k func(*State, []string)) bool {
 	info := e.info(ctx)
 	callee := e.calleeOf(call, info)
-	if callee != nil && inlinable(callee) {
+	if callee != nil && (inlinable(callee) || e.autoInlinable(callee)) {
 		e.inlineFunc(callee, call, st, ctx, nil, k)
 		return true
 	}
@@ -34,6 +34,32 @@ func (e *Exec) tryInline(call *ast.CallExpr, st *State, ctx *Ctx, k func(*State,
 		}
 	}
 	return false
+}
+
+// autoInlinable: a repository function WITHOUT a contract (a helper that did not exist when the contracts were written)
+// is executed through its real body when that is possible without annotations: a plain function (no receiver, no type
+// parameters), not recursive, no loop, no function literal, no defer/go. Everything else without a contract stays an
+// unconstrained result at the call site.
+func (e *Exec) autoInlinable(fi *FuncInfo) bool {
+	if fi.Contract != nil || fi.Decl == nil || fi.Decl.Body == nil || fi.Decl.Recv != nil || fi.Decl.Type.TypeParams != nil {
+		return false
+	}
+	if e.w.selfRec[fi] || e.w.scc[fi] == e.w.scc[e.fi] {
+		return false
+	}
+	sig := fi.Obj.Type().(*types.Signature)
+	if sig.Variadic() {
+		return false
+	}
+	ok := true
+	ast.Inspect(fi.Decl.Body, func(n ast.Node) bool {
+		switch n.(type) {
+		case *ast.ForStmt, *ast.RangeStmt, *ast.FuncLit, *ast.DeferStmt, *ast.GoStmt, *ast.SelectStmt, *ast.LabeledStmt, *ast.BranchStmt:
+			ok = false
+		}
+		return ok
+	})
+	return ok
 }
 
 // pre: terms for parameters that are not taken from the call's argument list (library models, see modelFor).
